@@ -31,6 +31,24 @@ def option_defaults(prog, names):
     return out
 
 
+def _handler_leaves(h):
+    """The exception handler cannot complete normally: its last statement
+    raises, or it contains a call that is known to raise with the arguments
+    it is given.  `traceback.format_exc(e)` with the caught exception as its
+    first argument is such a call (the parameter is `limit`, an int or None:
+    TypeError) - that accident is what ends the expiration pass today when a
+    deletion fails."""
+    if h.body and isinstance(h.body[-1], ast.Raise):
+        return True
+    for x in ast.walk(h):
+        if isinstance(x, ast.Call) and dotted(x.func) in (
+                'traceback.format_exc', 'traceback.print_exc') and \
+                x.args and isinstance(x.args[0], ast.Name) and \
+                h.name and x.args[0].id == h.name:
+            return True
+    return False
+
+
 def run(ctx):
     prog, sd = ctx.prog, ctx.sd
 
@@ -194,13 +212,46 @@ def run(ctx):
                       'get_superfluous_executions'},
              ctx.construct(de, extra='sources'),
              'deletion candidates come from %s' % sorted(srcs), ctx.loc(de))
+    # progress of the depletion loop: every pass that comes back for more
+    # has deleted what it fetched.  A deletion failure that is swallowed
+    # leaves the row in place and the same batch is selected for ever.
+    swallowed = []
+    for t_ in own_nodes(dl.node):
+        if not (isinstance(t_, ast.Try) and any(
+                x is dc[0] for b in t_.body for x in ast.walk(b)) if dc
+                else False):
+            continue
+        for h in t_.handlers:
+            broad = h.type is None or any(
+                x in ('Exception', 'BaseException')
+                for x in U.handler_types(h))
+            if broad and not _handler_leaves(h):
+                swallowed.append(h)
+    bounded = any(isinstance(x, (ast.For,)) for x in own_nodes(du.node)) or \
+        not any(isinstance(x, ast.While) and
+                isinstance(x.test, ast.Constant) and x.test.value is True
+                for x in own_nodes(du.node))
+    r2.check(not swallowed or bounded,
+             ctx.construct(dl, extra='a failed deletion ends the pass'),
+             'a failure of delete_workflow_execution is swallowed inside the '
+             'unbounded "until depleted" loop: the execution stays, the next '
+             'pass selects it again and the evaluation never terminates',
+             ctx.loc(dl, swallowed[0] if swallowed else None))
     ck = prog.func(EP + '._check_ignored_states_config')
     kcfg = ctx.cfg(ck)
     okk = False
+    # the value that is validated is the configured string itself - the
+    # candidate query subtracts exactly these strings from the terminal
+    # states, so a normalised spelling (upper(), strip()) that passes here
+    # is an entry that silently does nothing there
+    kloops = [x for x in own_nodes(ck.node) if isinstance(x, ast.For) and
+              isinstance(x.target, ast.Name) and 'ignored_states' in norm(
+                  U.canon_expr(ck.node, x.iter), 200)]
     for x in kcfg.nodes:
         if x.kind == 'stmt' and isinstance(x.ast, ast.Raise):
-            okk = okk or U.guarded(kcfg, x,
-                                   '__s in states.TERMINAL_STATES', False)
+            okk = okk or any(U.guarded(
+                kcfg, x, '%s in states.TERMINAL_STATES' % lp.target.id, False)
+                for lp in kloops)
     r2.check(okk,
              ctx.construct(ck), 'non-terminal ignored states are not '
              'rejected', ctx.loc(ck))
